@@ -7,6 +7,7 @@ import (
 	"fmt"
 	"go/token"
 	"go/types"
+	"os"
 	"strings"
 
 	"golang.org/x/tools/go/ssa"
@@ -430,6 +431,7 @@ func (x *ctx) model(st *state, fr *frame, key string, callee *ssa.Function, args
 		if l.cell == 0 {
 			cnt := x.ghostGet(st, "ghost_wgDone", []srtT{sRef}, bvSort(64), []term{l.base})
 			x.ghostWrite(st, "ghost_wgDone", []term{l.base}, x.binop(token.ADD, cnt, mkbv(1, 64), types.Typ[types.Int]))
+			x.ghostWrite(st, "ghost_released", []term{l.base}, mkbool(true))
 		}
 		return x.ret1(st, val{}), true
 	case "sync.WaitGroup.Wait":
@@ -462,6 +464,20 @@ func (x *ctx) model(st *state, fr *frame, key string, callee *ssa.Function, args
 		return x.ret1(st, scalar(r)), true
 	case "time.Duration.Nanoseconds":
 		return x.ret1(st, args[0]), true
+	case "os.Create", "os.OpenFile":
+		// the file handle is an arbitrary reference; ghost_fileTruncated(f) records whether the open truncated the file
+		// (os.Create always does; os.OpenFile when O_TRUNC is among the flags)
+		x.assumed["os: Create truncates the named file, OpenFile does when O_TRUNC is set; the file's other behaviour is not modelled"] = true
+		f := x.freshTerm("file", sRef)
+		e := x.freshTerm("err", sRef)
+		st.define(fmt.Sprintf("(= (= %s %s) %s)", e.s, null.s, not(eq(f, null))))
+		trunc := mkbool(true)
+		if key == "os.OpenFile" {
+			fl := x.asTerm(args[1], types.Typ[types.Int])
+			trunc = term{not(eq(term{fmt.Sprintf("(bvand %s %s)", fl.s, bvlit(uint64(os.O_TRUNC), 64)), bvSort(64)}, mkbv(0, 64))), sBool}
+		}
+		x.ghostWrite(st, "ghost_fileTruncated", []term{f}, trunc)
+		return x.ret1(st, val{agg: true, fields: []val{scalar(f), scalar(e)}}), true
 	case "encoding/gob.Decoder.Decode":
 		// decoding receives an arbitrary value W (what the wire holds is not modelled) or fails. As documented for
 		// encoding/gob, fields that hold the zero value are not transmitted and the decoder leaves the corresponding
